@@ -366,14 +366,15 @@ package mapping
 // strings go through the checked string store; a same-kind element is stored as it is.
 //@ func (*Unmarshaler).fillSliceValue
 //@   prop C05
-//@   opaque setValue, fillMap, Deref
+//@   replay mapping_elemtypes
+//@   opaque setValue, fillMap, Deref, elemValueOf
 //@   requires u != nil
 //@   let isStringer = typeis(value, string) || calls(String) == 1
 //@   ensures [string-through-checked-store] typeis(value, string) && calls(String) == 0 ==> calls(setValue) == 1 && arg(setValue, 0) == baseKind && arg(setValue, 2) == unbox(value, string) && result == ret(setValue)
-//@   ensures [kind-mismatch-is-an-error] calls(setValue) == 0 && calls(fillMap) == 0 && result != nil ==> result == errTypeMismatch && calls(Set) == 0
+//@   ensures [unfitting-element-is-a-mismatch] calls(elemValueOf) == 1 && !ret(elemValueOf, 1) ==> result == errTypeMismatch && calls(Set) == 0
 //@   ensures [object-element-only-into-a-map-slot] calls(fillMap) == 1 ==> calls(Kind) == 1 && ret(Kind) == 21 && arg(Kind, 0) == ret(Index) && result == ret(fillMap)
 //@   ensures [object-element-into-anything-else-is-a-mismatch] typeis(value, map[string]any) && calls(String) == 0 && calls(Kind) == 1 && ret(Kind) != 21 ==> result == errTypeMismatch && calls(fillMap) == 0
-//@   ensures [stored-only-with-matching-kind] calls(Set) >= 1 ==> result == nil && calls(setValue) == 0 && calls(Kind) == 3 && ret(Kind, 0, 2) == ret(Kind, 0, 3)
+//@   ensures [stored-only-what-fits-the-element-type] calls(Set) >= 1 ==> result == nil && calls(setValue) == 0 && calls(Set) == 1 && calls(elemValueOf) == 1 && ret(elemValueOf, 1) && arg(elemValueOf, 0) == ret(Type) && arg(Set, 1) == ret(elemValueOf, 0) && arg(Set, 0) == ret(Index)
 // processFieldStruct: the nested struct is filled from the given valuer under the same full name; a pointer field
 // is allocated, filled and only then attached (an error leaves the field untouched).
 //@ func (*Unmarshaler).processFieldStruct
@@ -518,7 +519,7 @@ package mapping
 // empty value with the error (the partially built map is dropped).
 //@ func (*Unmarshaler).generateMap
 //@   prop C05
-//@   opaque Deref, fillSlice, Unmarshal, generateMap, setValue
+//@   opaque Deref, fillSlice, Unmarshal, generateMap, setValue, elemValueOf
 //@   requires u != nil
 //@   let data = ret(Interface, 0, 1)
 //@   ensures [same-type-taken-as-is] ret(reflect.MapOf) == ret(reflect.TypeOf) ==> result1 == nil && result0 == ret(reflect.ValueOf) && calls(reflect.MakeMapWithSize) == 0
@@ -533,10 +534,10 @@ package mapping
 //@   loop 1 iteration-ensures [list-entry-through-the-slice-filler] dereffedElemKind == 23 ==> calls(u.fillSlice) == 1 && ret(fillSlice) == nil && arg(fillSlice, 1) == elemType && arg(fillSlice, 3) == data
 //@   loop 1 iteration-ensures [object-entry-through-unmarshal] dereffedElemKind == 25 ==> typeis(data, map[string]any) && calls(u.Unmarshal) == 1 && ret(Unmarshal) == nil && arg(Unmarshal, 1) == unbox(data, map[string]any) && arg(Unmarshal, 2) == ret(Interface, 0, 2)
 //@   loop 1 iteration-ensures [map-entry-recursively] dereffedElemKind == 21 ==> typeis(data, map[string]any) && calls(u.generateMap) == 1 && ret(generateMap, 1) == nil && arg(SetMapIndex, 2) == ret(generateMap, 0)
-//@   loop 1 iteration-ensures [bool-only-into-bool] dereffedElemKind != 23 && dereffedElemKind != 25 && dereffedElemKind != 21 && typeis(data, bool) ==> dereffedElemKind == 1
-//@   loop 1 iteration-ensures [string-only-into-string] dereffedElemKind != 23 && dereffedElemKind != 25 && dereffedElemKind != 21 && typeis(data, string) ==> dereffedElemKind == 24
-//@   loop 1 iteration-ensures [number-through-the-checked-store] dereffedElemKind != 23 && dereffedElemKind != 25 && dereffedElemKind != 21 && typeis(data, json.Number) ==> calls(setValue) == 1 && ret(setValue) == nil && arg(setValue, 0) == dereffedElemKind && arg(setValue, 2) == ret(String)
-//@   loop 1 iteration-ensures [other-only-with-equal-kind] dereffedElemKind != 23 && dereffedElemKind != 25 && dereffedElemKind != 21 && !typeis(data, bool) && !typeis(data, string) && !typeis(data, json.Number) ==> calls(Kind) >= 1 && ret(Kind, 0, last) == dereffedElemKind && arg(Kind, 0, last) == ret(MapIndex) && arg(SetMapIndex, 2) == ret(MapIndex)
+//@   loop 1 iteration-ensures [number-through-the-checked-store] dereffedElemKind != 23 && dereffedElemKind != 25 && dereffedElemKind != 21 && typeis(data, json.Number) ==> calls(setValue) == 1 && ret(setValue) == nil && arg(setValue, 0) == dereffedElemKind && arg(setValue, 2) == ret(String) && calls(elemValueOf) == 0 && (fieldElemKind == 22 ==> arg(SetMapIndex, 2) == ret(reflect.New)) && (fieldElemKind != 22 ==> arg(SetMapIndex, 2) == ret(Elem, 0, last))
+// every other entry (bool, string, anything of the element's kind) is stored only as what elemValueOf made of it for the
+// element type - assignable as it is, a named type converted, a pointer element allocated - and is a mismatch otherwise
+//@   loop 1 iteration-ensures [other-entries-fitted-to-the-element-type] dereffedElemKind != 23 && dereffedElemKind != 25 && dereffedElemKind != 21 && !typeis(data, json.Number) ==> calls(elemValueOf) == 1 && arg(elemValueOf, 0) == elemType && ret(elemValueOf, 1) && arg(SetMapIndex, 2) == ret(elemValueOf, 0)
 // ---------------- tag text -> key and options (C05) ----------------
 // doParseKeyAndOptions: the first segment of the tag is the key, every further segment is parsed as one option
 // (in order, against the same options record); the first option error is returned with no key and no options.
@@ -572,3 +573,15 @@ package mapping
 //@   replay mapping_samekind
 //@   ensures [assignable-stored-as-is] ret(AssignableTo) ==> calls(Set) == 1 && calls(Convert) == 0
 //@   ensures [converted-only-when-convertible] calls(Convert) >= 1 ==> calls(ConvertibleTo) == 1 && ret(ConvertibleTo) && arg(ConvertibleTo, 0) == targetType && arg(Convert, 1) == targetType
+
+// elemValueOf: what a document value becomes as an element of the given type. Nothing is produced for an invalid
+// (nil) value, a value of another kind or of an unconvertible type; Convert runs only after ConvertibleTo said yes;
+// a pointer element is a newly allocated pointee holding the (converted) value.
+//@ func elemValueOf
+//@   prop C05
+//@   replay mapping_elemtypes
+//@   ensures [nil-value-fits-nothing] !ret(IsValid) ==> !result1 && calls(Type) == 0
+//@   ensures [converted-only-when-convertible] calls(Convert) >= 1 ==> calls(ConvertibleTo) == 1 && ret(ConvertibleTo) && calls(AssignableTo) == 1 && !ret(AssignableTo)
+//@   ensures [neither-assignable-nor-convertible-fits-nothing] calls(AssignableTo) == 1 && !ret(AssignableTo) && (calls(ConvertibleTo) == 0 || !ret(ConvertibleTo)) ==> !result1
+//@   ensures [pointer-element-is-a-new-pointee] result1 && calls(reflect.New) == 1 ==> result0 == ret(reflect.New) && calls(Set) == 1
+//@   ensures [value-element-as-it-is-or-converted] result1 && calls(reflect.New) == 0 ==> (calls(Convert) == 0 ==> result0 == v) && (calls(Convert) == 1 ==> result0 == ret(Convert))
